@@ -550,6 +550,40 @@ def rule_entry_keys(chk, fb, store, mapf):
                 n += 1
 
 
+def rule_extent_wrappers(chk, fb, store, sets):
+    """What the sheet reports as its extent is the store's extent and nothing else (row/column settings without cells
+    are not cells)."""
+    r = chk.rule(
+        "C10.e.api",
+        "the sheet's extent is the store's extent: every public method of the owner of the store whose result derives from the store's extent function derives from no other field of the owner",
+        floor=2,
+    )
+    # the extent functions of the store: results derive from both indexes
+    ext = set()
+    for d, b in fb.mir.items():
+        if b.get("self_ty") == store and b["kind"] == "AssocFn" and b["argc"] == 1:
+            fl = Flow(fb, b)
+            at = fl.atoms(0)
+            if all(("field", store, s_) in at for s_ in sets) and fb.ty(b["locals"][0]["t"]).replace(" ", "") in ("(u32,u32)",):
+                ext.add(d)
+    if not ext:
+        chk.ob(r, "store-extent", False, detail="no extent function found in the store")
+        return
+    owners = {a for a, ad in fb.adts.items() if ad["kind"] == "struct" and any(f["ty"] == store for f in ad["variants"][0]["fields"])}
+    for d, b in sorted(fb.mir.items()):
+        if b.get("self_ty") not in owners or b["kind"] != "AssocFn" or b.get("vis") != "pub":
+            continue
+        fl = Flow(fb, b)
+        at = fl.atoms(0)
+        if not any(a[0] == "call" and a[1] in ext for a in at):
+            continue
+        own = b["self_ty"]
+        storef = [f["name"] for f in fb.adts[own]["variants"][0]["fields"] if f["ty"] == store]
+        other = sorted(a[2] for a in at if a[0] == "field" and a[1] == own and a[2] not in storef)
+        chk.touch(d)
+        chk.ob(r, "%s" % d.split("::", 2)[-1], not other, where=fb.loc(d), detail="result derives from the store's extent%s" % (" only" if not other else " AND from the owner's field(s) %s" % other))
+
+
 def run(chk, fb, tier):
     store, mapf, sets = find_store(fb)
     chk.rule("C10.anchor", "the cell store located by role (a HashMap<(u32,u32),Box<Cell>> with two BTreeSet<(u32,u32)> indexes)", floor=1)
@@ -561,5 +595,6 @@ def run(chk, fb, tier):
     rule_readers(chk, fb, store, mapf, sets, orient)
     rule_rows(chk, fb, store, mapf)
     rule_entry_keys(chk, fb, store, mapf)
+    rule_extent_wrappers(chk, fb, store, sets)
     chk.assume("std HashMap / BTreeSet are correct; BTreeSet<(u32,u32)> iterates in lexicographic order")
     chk.note("not decided: agreement of all listings after arbitrary histories (follows from a-c only under the std-collections assumption)")
